@@ -25,25 +25,39 @@ def rule_break(ctx):
     fx = ctx.facts
     b = fx.fn("ht::break_equivalences_formula")
     site = ctx.site(b)
-    v = sym.Eval(fx, inline_depth=0).function(b)
-    if v[0] != "match" or v[1] != S:
-        raise AnalysisGap("break_equivalences_formula is not a match on formula.unbox()")
-    arms = {a[0]: a[-1] for a in v[2]}
+    # decided per node kind on concrete constructors; a Theory and the list of its formulas are the same thing here
+    def C(n, **f):
+        return ("ctor", n, tuple(sorted(f.items())))
 
-    def imp(conn):
-        return ("ctor", "Formula::BinaryFormula", (("connective", ("ctor", "BinaryConnective::" + conn, ())), ("lhs", P((UB, "lhs"))), ("rhs", P((UB, "rhs")))))
+    def content(t):
+        """the formulas of a theory-valued term: Theory { formulas: X } = X, T.formulas = T, collected iterators of formulas = the iterator"""
+        if isinstance(t, tuple) and t[:2] == ("ctor", "Theory"):
+            return content(dict(t[2]).get("formulas"))
+        if isinstance(t, tuple) and t[:1] == ("fieldof",) and t[2] == "formulas":
+            return content(t[1])
+        if isinstance(t, tuple):
+            return tuple(content(x) for x in t)
+        return t
+    L, R, VS, FB, Q = ("param", "$l"), ("param", "$r"), ("param", "$vs"), ("param", "$f"), ("param", "$q")
 
-    eq = arms.get("UnboxedFormula::BinaryFormula{connective: BinaryConnective::Equivalence}")
-    ref = ("ctor", "Theory", (("formulas", ("list", (imp("Implication"), imp("ReverseImplication")))),))
-    ctx.add("TPL", "break:equivalence", eq == ref, site, "F <-> G  =>  [F -> G, F <- G]", construct=eq)
-    q = arms.get("UnboxedFormula::QuantifiedFormula{quantification: Quantification{quantifier: Quantifier::Forall}}")
-    refq = ("ctor", "Theory", (("formulas", ("call", "Iterator::map", (
-        ("fieldof", ("call", "ht::break_equivalences_formula", (P((UQ, "formula")),)), "formulas"),
-        ("closure", ("f",), ("call", "Formula::quantify", (("param", "f"), ("ctor", "Quantifier::Forall", ()), P((UQ, "quantification"), ("Quantification", "variables")))))))),))
+    def run(node):
+        return content(sym.Eval(fx, inline_depth=0).function(b, [node]))
+
+    def bin_(conn, l=L, r=R):
+        return C("Formula::BinaryFormula", connective=C("BinaryConnective::" + conn), lhs=l, rhs=r)
+    eq = run(bin_("Equivalence"))
+    ctx.add("TPL", "break:equivalence", eq == ("list", (bin_("Implication"), bin_("ReverseImplication"))), site, "F <-> G  =>  [F -> G, F <- G]", construct=eq)
+    qn = C("Formula::QuantifiedFormula", quantification=C("Quantification", quantifier=C("Quantifier::Forall"), variables=VS), formula=FB)
+    q = run(qn)
+    refq = ("call", "Iterator::map", (("call", "ht::break_equivalences_formula", (FB,)), ("closure", ("f",), ("call", "Formula::quantify", (("param", "f"), C("Quantifier::Forall"), VS)))))
     ctx.add("TPL", "break:forall", q == refq, site, "forall V F  =>  forall V F_i for every part F_i of F (same variables)", construct=q)
-    o = arms.get("_")
-    refo = ("ctor", "Theory", (("formulas", ("list", (("call", "UnboxedFormula::rebox", (S,)),))),))
-    ctx.add("TPL", "break:other", o == refo and len(arms) == 3, site, "every other formula is returned unchanged as a single formula", construct=o)
+    others = {"exists": C("Formula::QuantifiedFormula", quantification=C("Quantification", quantifier=C("Quantifier::Exists"), variables=VS), formula=FB),
+              "atomic": C("Formula::AtomicFormula", **{"0": ("param", "$a")}), "negation": C("Formula::UnaryFormula", connective=Q, formula=FB)}
+    for conn in fx.variants("syntax_tree::fol::sigma_0::BinaryConnective"):
+        if conn != "Equivalence":
+            others[conn] = bin_(conn)
+    bad = {k_: sym.pretty(run(n_))[:100] for k_, n_ in others.items() if run(n_) != ("list", (n_,))}
+    ctx.add("TPL", "break:other", not bad, site, "every other formula is returned unchanged as a single formula", construct=bad or None)
     a = fx.fn("ht::break_equivalences_annotated_formula")
     va = sym.Eval(fx, inline_depth=0).function(a)
     ok = va[:2] == ("ctor", "Specification")
